@@ -52,6 +52,10 @@ def run(ctx):
     generator(ctx)
     origin_slots(ctx, ht, 'C05.4')
     structured(ctx, ht)
+    ctx.rule('C05.6', 'the sample-interval field is decoded under its version gate; a re-stamped copy converts it')
+    from .c03 import version_gated_fields
+    if version_gated_fields(ctx, ht, 'C05.6') < 2:
+        raise AnalysisError('decodes of the sample-interval field (28:32): fewer than the 2 confirmed sites')
 
 
 def spec_handover(ctx):
